@@ -54,7 +54,13 @@ fn main() {
         "C10" => events::run_check(events::Mode::C10, replay),
         "C06" => c06::run_check(replay),
         "C11" => c11::run_check(replay),
-        "C12" => c12::run_check(replay),
+        "C12" => {
+            if let Some(q) = args.iter().position(|a| a == "--seq") {
+                let (i, j) = (args[q + 1].parse().unwrap_or(0), args[q + 2].parse().unwrap_or(0));
+                std::process::exit(c12::seq_child(i, j));
+            }
+            c12::run_check(replay)
+        }
         "C07" => c07::run_check(replay),
         "C13" => c13::run_check(replay),
         "C14" => c14::run_check(replay),
